@@ -313,6 +313,36 @@ def other_session(code: int, asn4: bool, aigp: bool) -> Negotiated:
     return Sess.get(False, asn4, not aigp) if code == 26 else Sess.get(False, not asn4, aigp)
 
 
+def encoding_depends_on_asn4(a: Attribute) -> bool:
+    """Whether the bytes of this attribute on a 2-octet session are not those of a 4-octet session."""
+    out = []
+    for asn4 in (True, False):
+        try:
+            out.append(bytes(a.pack_attribute(Sess.get(False, asn4, klass_name(a) == 'AIGP'))))
+        except Exception as e:  # noqa: BLE001
+            out.append(err_name(e))
+    return out[0] != out[1]
+
+
+def rfc6793_expected(a: Attribute) -> Attribute:
+    """What a 2-octet session can carry of an AS_PATH: everything, except the members of confederation segments
+    above 65535, which travel as AS_TRANS (RFC 6793 3: an AS4_PATH has no confederation segments)."""
+    if klass_name(a) not in ('ASPath', 'AS2Path'):
+        return a
+    from exabgp.bgp.message.update.attribute.aspath import CONFED_SEQUENCE, CONFED_SET, ASPath
+    from exabgp.bgp.message.open.asn import ASN
+
+    segs = []
+    changed = False
+    for seg in a.aspath:
+        if isinstance(seg, (CONFED_SEQUENCE, CONFED_SET)) and any(int(x) > 65535 for x in seg):
+            segs.append(type(seg)([ASN(23456) if int(x) > 65535 else x for x in seg]))
+            changed = True
+        else:
+            segs.append(seg)
+    return ASPath.make_aspath(segs, asn4=True) if changed else a
+
+
 def attr_laws(a: Attribute, asn4: bool = True) -> tuple[list[LawFail], dict]:
     fails: list[LawFail] = []
     facts: dict = {}
@@ -361,9 +391,12 @@ def attr_laws(a: Attribute, asn4: bool = True) -> tuple[list[LawFail], dict]:
             fails.append(LawFail('pack(unpack(b))-raises', err_name(e), b))
         return fails, facts
     try:
-        eq = y == a
+        want = a if asn4 else rfc6793_expected(a)
+        if want is not a:
+            facts['confed-member-as-trans'] = True
+        eq = y == want
         if eq is NotImplemented or not eq:
-            fails.append(LawFail('unpack(pack(x))!=x', f'{a} | {y}', b))
+            fails.append(LawFail('unpack(pack(x))!=x', f'{want} | {y}', b))
     except Exception as e:  # noqa: BLE001
         fails.append(LawFail('eq-raises', err_name(e), b))
     try:
@@ -785,6 +818,11 @@ def pool(cls: type, pname: str, ann: str, default: Any, fl: int) -> list[Any] | 
             [SET([ASN(1), ASN(2)]), SEQUENCE([ASN(3)])],
             [CONFED_SEQUENCE([ASN(64512)]), CONFED_SET([ASN(64513)]), SEQUENCE([ASN(100)] * 255)],
             [SEQUENCE([ASN(7)] * 256)],
+            # F99: a confederation segment next to a path that needs an AS4_PATH on a 2-octet session
+            [CONFED_SEQUENCE([ASN(65001), ASN(65002)]), SEQUENCE([ASN(200000), ASN(100)])],
+            [CONFED_SEQUENCE([ASN(65001)]), CONFED_SET([ASN(65002), ASN(65003)]), SET([ASN(7), ASN(300000)]), SEQUENCE([ASN(100)])],
+            [CONFED_SEQUENCE([ASN(65001), ASN(300000)]), SEQUENCE([ASN(200000), ASN(100)])],
+            [CONFED_SEQUENCE([ASN(65001), ASN(300000)])],
         ]
     if vals is None:
         if default is not inspect.Parameter.empty:
